@@ -55,9 +55,19 @@ const (
 	dstLonger
 	adjacentDstAfter
 	adjacentDstBefore
+	// inPlaceDstLonger: dst and src start at the same byte and dst is the longer slice (dst[:len(src)] overlaps src
+	// exactly, which cipher.Stream allows); drawn at random only, not part of the exhaustive layout pairs
+	inPlaceDstLonger
 )
 
-var layoutNames = []string{"in-place", "disjoint", "dst-longer", "adjacent-dst-after-src", "adjacent-dst-before-src"}
+var layoutNames = []string{"in-place", "disjoint", "dst-longer", "adjacent-dst-after-src", "adjacent-dst-before-src", "in-place-dst-longer"}
+
+// scribble overwrites memory that belongs to the caller: whatever the stream still needs of it, it must have copied.
+func scribble(b []byte, v byte) {
+	for i := range b {
+		b[i] = v
+	}
+}
 
 // ivSlice returns 16 IV bytes in a slice that is tight, or has spare capacity behind it (the login code
 // passes a prefix of a larger decrypted buffer): a cipher must not keep its state in the caller's memory.
@@ -81,6 +91,12 @@ func ivSlice(c *vm.Ctx, r *vm.Rand) []byte {
 
 // checkSeq runs one sequence of calls. forced, if not nil, gives the buffer layout of each call; otherwise each call draws one.
 func checkSeq(c *vm.Ctx, r *vm.Rand, lens []int, decrypt bool, forced ...layout) {
+	checkSeqIn(c, r, "", lens, decrypt, forced...)
+}
+
+// checkSeqIn is checkSeq with a prefix for its signatures ("concurrent/" when other goroutines run sequences of their
+// own at the same time).
+func checkSeqIn(c *vm.Ctx, r *vm.Rand, sigPrefix string, lens []int, decrypt bool, forced ...layout) {
 	keyLen := []int{16, 24, 32}[r.Intn(3)]
 	key := r.Bytes(keyLen)
 	iv := ivSlice(c, r)
@@ -94,15 +110,22 @@ func checkSeq(c *vm.Ctx, r *vm.Rand, lens []int, decrypt bool, forced ...layout)
 		s = CFB8.NewCFB8Encrypt(blk, iv)
 	}
 	ref := &refCFB8{b: blk2, reg: append([]byte{}, ivCopy...), dec: decrypt}
+	// the IV slice is the caller's: in half of the sequences the caller overwrites it (and whatever capacity lies behind
+	// it) once the stream has been made, as a caller that wipes or reuses its key material does
+	ivOverwritten := r.Bool()
+	if ivOverwritten {
+		scribble(iv[:cap(iv)], 0xC3)
+	}
 	var lays []string
 	wit := func() any {
-		return map[string]any{"key_len": keyLen, "decrypt": decrypt, "call_lengths": lens, "layouts": lays, "key": vm.Hex(key), "iv": vm.Hex(ivCopy), "iv_slice_capacity": cap(iv)}
+		return map[string]any{"key_len": keyLen, "decrypt": decrypt, "call_lengths": lens, "layouts": lays, "key": vm.Hex(key), "iv": vm.Hex(ivCopy), "iv_slice_capacity": cap(iv),
+			"iv_slice_overwritten_after_construction": ivOverwritten, "src_and_dst_overwritten_after_each_call": true, "other_goroutines_running_sequences": sigPrefix != ""}
 	}
-	total := 0
+	total, callsWithBytes := 0, 0
 	for ci, n := range lens {
 		src := r.Bytes(n)
 		want := ref.do(src)
-		lay := layout(r.Intn(5))
+		lay := layout(r.Intn(6))
 		if forced != nil {
 			lay = forced[ci]
 		}
@@ -141,8 +164,13 @@ func checkSeq(c *vm.Ctx, r *vm.Rand, lens []int, decrypt bool, forced ...layout)
 			srcBuf = back[n : 2*n : 2*n]
 			dst = back[:n:n]
 			guardFrom = n
+		case inPlaceDstLonger:
+			dst = bytes.Repeat([]byte{0xA5}, n+1+r.Intn(40))
+			copy(dst, src)
+			srcBuf = dst[:n]
+			guardFrom = n
 		}
-		if c.Guard("xor", wit, func() { s.XORKeyStream(dst, srcBuf) }) {
+		if c.Guard(sigPrefix+"xor", wit, func() { s.XORKeyStream(dst, srcBuf) }) {
 			return
 		}
 		if !bytes.Equal(dst[:n], want) {
@@ -155,37 +183,51 @@ func checkSeq(c *vm.Ctx, r *vm.Rand, lens []int, decrypt bool, forced ...layout)
 				dir = "decrypt"
 			}
 			cls := "slow-path"
-			if n > 32 && lay != inPlace {
+			if n > 32 && lay != inPlace && lay != inPlaceDstLonger {
 				cls = "fast-path"
 			}
-			c.Violation("xor/differs-from-aes-cfb8/"+dir+"/"+cls, fmt.Sprintf("call %d (len %d, %s) differs from the reference at byte %d (stream offset %d)", ci, n, layoutNames[lay], first, total+first), wit())
+			c.Violation(sigPrefix+"xor/differs-from-aes-cfb8/"+dir+"/"+cls, fmt.Sprintf("call %d (len %d, %s) differs from the reference at byte %d (stream offset %d)", ci, n, layoutNames[lay], first, total+first), wit())
 			return
 		}
 		for i := guardFrom; i < len(dst); i++ {
 			if dst[i] != 0xA5 {
-				c.Violation("xor/wrote-beyond-len-src", fmt.Sprintf("call %d (len %d, %s): dst[%d] beyond len(src) was modified", ci, n, layoutNames[lay], i), wit())
+				c.Violation(sigPrefix+"xor/wrote-beyond-len-src", fmt.Sprintf("call %d (len %d, %s): dst[%d] beyond len(src) was modified", ci, n, layoutNames[lay], i), wit())
 				return
 			}
 		}
 		if back != nil {
 			for i := 2 * n; i < len(back); i++ {
 				if back[i] != 0xA5 {
-					c.Violation("xor/wrote-outside-buffers", fmt.Sprintf("call %d: byte %d outside both buffers was modified", ci, i), wit())
+					c.Violation(sigPrefix+"xor/wrote-outside-buffers", fmt.Sprintf("call %d: byte %d outside both buffers was modified", ci, i), wit())
 					return
 				}
 			}
 			if lay == adjacentDstAfter && !bytes.Equal(back[:n], src) {
-				c.Violation("xor/modified-src", fmt.Sprintf("call %d: src was modified although dst is a separate buffer", ci), wit())
+				c.Violation(sigPrefix+"xor/modified-src", fmt.Sprintf("call %d: src was modified although dst is a separate buffer", ci), wit())
 				return
 			}
 		}
+		// the call has returned: its buffers are the caller's again, who reuses them (here: overwrites them). A stream that
+		// still refers to the last block of ciphertext where the caller had it gives wrong bytes in the next call
+		scribble(srcBuf, 0x3C)
+		scribble(dst, 0x3C)
+		scribble(back, 0x3C)
 		total += n
+		if n > 0 {
+			callsWithBytes++
+		}
 		c.Cover("layout." + layoutNames[lay])
 		if n > 32 {
 			c.Cover("len.above-2-blocks")
 		}
 	}
-	c.Eval(vm.HashStr("seq", fmt.Sprint(lens, decrypt, keyLen)), total > 0)
+	if callsWithBytes >= 2 {
+		c.Cover("buffers.overwritten-by-caller-between-calls")
+		if ivOverwritten {
+			c.Cover("iv.overwritten-by-caller-after-construction")
+		}
+	}
+	c.Eval(vm.HashStr("seq", sigPrefix, fmt.Sprint(lens, decrypt, keyLen)), total > 0)
 }
 
 func checkInverse(c *vm.Ctx, r *vm.Rand) {
@@ -195,12 +237,20 @@ func checkInverse(c *vm.Ctx, r *vm.Rand) {
 	msg := r.Bytes(r.Range(0, 4096))
 	b1, _ := aes.NewCipher(key)
 	b2, _ := aes.NewCipher(key)
+	oneBlock := r.Bool() // bot/login.go and server/auth hand ONE cipher.Block to the encrypter and the decrypter
+	if oneBlock {
+		b2 = b1
+	}
 	enc := CFB8.NewCFB8Encrypt(b1, iv)
 	dec := CFB8.NewCFB8Decrypt(b2, iv)
+	ivOverwritten := r.Bool()
+	if ivOverwritten {
+		scribble(iv[:cap(iv)], 0xC3) // both streams exist: the slice is the caller's again
+	}
 	ct := make([]byte, len(msg))
 	pt := make([]byte, len(msg))
 	wit := func() any {
-		return map[string]any{"key": vm.Hex(key), "iv": vm.Hex(ivCopy), "iv_slice_capacity": cap(iv), "message_len": len(msg)}
+		return map[string]any{"key": vm.Hex(key), "iv": vm.Hex(ivCopy), "iv_slice_capacity": cap(iv), "message_len": len(msg), "one_cipher_block_for_both_streams": oneBlock, "iv_slice_overwritten_after_construction": ivOverwritten}
 	}
 	if c.Guard("inverse", wit, func() {
 		// different call divisions on the two sides
@@ -217,7 +267,7 @@ func checkInverse(c *vm.Ctx, r *vm.Rand) {
 	}) {
 		return
 	}
-	c.Eval(vm.Hash64(key, iv, msg[:min(len(msg), 32)]), len(msg) > 0)
+	c.Eval(vm.Hash64(key, ivCopy, msg[:min(len(msg), 32)]), len(msg) > 0)
 	b3, _ := aes.NewCipher(key)
 	if want := (&refCFB8{b: b3, reg: append([]byte{}, ivCopy...)}).do(msg); !bytes.Equal(ct, want) {
 		c.Violation("inverse/encrypt-differs-from-reference", "with an encrypter and a decrypter built from the same IV slice, the ciphertext differs from AES-CFB8", wit())
@@ -228,6 +278,9 @@ func checkInverse(c *vm.Ctx, r *vm.Rand) {
 		return
 	}
 	c.Cover("inverse.ok")
+	if oneBlock && len(msg) > 64 {
+		c.Cover("inverse.one-block-for-both-streams")
+	}
 }
 
 type duplexEnd struct {
@@ -260,9 +313,9 @@ func checkConn(c *vm.Ctx, r *vm.Rand) {
 		n = r.Range(1, 6)
 	}
 	pkts, sizes, ids := genPkts(r, threshold, n, wide)
-	var senderCipherFirst, recvCipherFirst bool
+	var senderCipherFirst, recvCipherFirst, oneBlock, leaveDefault bool
 	wit := func() any {
-		return map[string]any{"threshold": threshold, "packets": n, "sizes": sizes, "ids": ids, "sender_sets_cipher_first": senderCipherFirst, "receiver_sets_cipher_first": recvCipherFirst}
+		return map[string]any{"threshold": threshold, "packets": n, "sizes": sizes, "ids": ids, "sender_sets_cipher_first": senderCipherFirst, "receiver_sets_cipher_first": recvCipherFirst, "one_cipher_block_per_end": oneBlock, "threshold_never_set_when_negative": leaveDefault}
 	}
 	wire := &bytes.Buffer{}
 	// sender
@@ -272,11 +325,16 @@ func checkConn(c *vm.Ctx, r *vm.Rand) {
 	sb2, _ := aes.NewCipher(secret)
 	// the two settings are independent: either order, on either end
 	senderCipherFirst, recvCipherFirst = r.Bool(), r.Bool()
+	leaveDefault = r.Bool()
+	oneBlock = r.Bool() // one cipher.Block behind both streams of an end, as the library's login code builds them
+	if oneBlock {
+		sb2 = sb
+	}
 	if senderCipherFirst {
 		sender.SetCipher(CFB8.NewCFB8Encrypt(sb, secret), CFB8.NewCFB8Decrypt(sb2, secret))
-		sender.SetThreshold(threshold)
+		setThreshold(sender, threshold, leaveDefault)
 	} else {
-		sender.SetThreshold(threshold)
+		setThreshold(sender, threshold, leaveDefault)
 		sender.SetCipher(CFB8.NewCFB8Encrypt(sb, secret), CFB8.NewCFB8Decrypt(sb2, secret))
 		c.Cover("conn.threshold-set-before-cipher")
 	}
@@ -327,12 +385,15 @@ func checkConn(c *vm.Ctx, r *vm.Rand) {
 	}
 	rb, _ := aes.NewCipher(secret)
 	rb2, _ := aes.NewCipher(secret)
+	if oneBlock {
+		rb2 = rb
+	}
 	recv := mcnet.WrapConn(&duplexEnd{r: &inject.ChunkReader{B: wire.Bytes(), Plan: plan}, w: &bytes.Buffer{}})
 	if recvCipherFirst {
 		recv.SetCipher(CFB8.NewCFB8Encrypt(rb, secret), CFB8.NewCFB8Decrypt(rb2, secret))
-		recv.SetThreshold(threshold)
+		setThreshold(recv, threshold, leaveDefault)
 	} else {
-		recv.SetThreshold(threshold)
+		setThreshold(recv, threshold, leaveDefault)
 		recv.SetCipher(CFB8.NewCFB8Encrypt(rb, secret), CFB8.NewCFB8Decrypt(rb2, secret))
 	}
 	c.Eval(vm.Hash64(secret, []byte(fmt.Sprint(threshold, sizes))), true)
@@ -357,6 +418,12 @@ func checkConn(c *vm.Ctx, r *vm.Rand) {
 		} else {
 			c.Cover("conn.encrypted")
 		}
+		if oneBlock {
+			c.Cover("conn.one-block-for-both-directions")
+		}
+		if threshold < 0 && leaveDefault {
+			c.Cover("conn.threshold-never-set")
+		}
 		if wide {
 			c.Cover("conn.wide-ids-sizes-thresholds")
 			for i, sz := range sizes {
@@ -374,6 +441,15 @@ func checkConn(c *vm.Ctx, r *vm.Rand) {
 type pkt struct {
 	id   int32
 	data []byte
+}
+
+// setThreshold applies the compression setting of a connection. A connection that is to run without compression either
+// says so (SetThreshold(-1)) or, when leaveDefault is set, is never told anything: no compression is what a Conn starts with.
+func setThreshold(conn *mcnet.Conn, threshold int, leaveDefault bool) {
+	if threshold < 0 && leaveDefault {
+		return
+	}
+	conn.SetThreshold(threshold)
 }
 
 var wideThresholds = []int{-1, 0, 1, 2, 63, 64, 256, 1 << 15, 1 << 21}
@@ -513,7 +589,10 @@ func run(c *vm.Ctx) {
 		checkConnStaged(c, sr)
 	}
 	dr := c.Rand("conn-duplex")
+	tcp := openLoopback(c)
 	for i := 0; i < c.Scale(400, 10000); i++ {
-		checkConnDuplex(c, dr)
+		checkConnDuplex(c, dr, tcp)
 	}
+	tcp.close()
+	checkConcurrent(c, c.Rand("concurrent"))
 }
